@@ -12,6 +12,7 @@ table reached by following `(j4, j3, …)` from P4 appears as a 4 KiB "page" at
 each sign-extended to a canonical address (`unrank`).
 -/
 import X86Model.Spec.Canon
+import X86Model.Spec.Walk
 
 namespace X86.Spec
 
@@ -34,11 +35,12 @@ inductive NewOutcome where
 /-- What the documentation of `RecursivePageTable::new` requires, as a function of the table
 reference's address `a`, the raw CR3 value and the raw content `e` of slot `idxSpec 4 a` of the
 table: the address must have the recursive form (all four indices equal), and that slot must be
-present and point to the frame CR3 holds (bits 51:12 of both). The checks are made in this order. -/
-def newSpec (a cr3 : Nat) (e : BitVec 64) : NewOutcome :=
+present and point to the frame CR3 holds (bits 51:12 of both, `tableAddr`). The checks are made in
+this order. -/
+def newSpec (a : Nat) (cr3 e : BitVec 64) : NewOutcome :=
   let R := idxSpec 4 a
   if idxSpec 3 a ≠ R ∨ idxSpec 2 a ≠ R ∨ idxSpec 1 a ≠ R then .notRecursive
-  else if e.toNat % 2 = 1 ∧ e.toNat / 2^12 % 2^40 = cr3 / 2^12 % 2^40 then .ok R
+  else if bitP e ∧ tableAddr e = tableAddr cr3 then .ok R
   else .notActive
 
 end X86.Spec
